@@ -99,7 +99,12 @@ pub fn tick() {
         c.max_idle_run = idle;
     }
     COUNTERS.with(|cell| cell.set(c));
+    spend_fuel();
+}
 
+/// One unit of the step budget: spent by every iteration of the run loop and by every command
+/// the debugger reads (so that a loop which keeps reading commands is bounded too).
+fn spend_fuel() {
     // Binary: budget from the environment, read once
     if !ENV_FUEL_READ.with(|r| r.replace(true)) && !ARMED.with(|a| a.get()) {
         if let Some(fuel) = std::env::var("LACE_VERIF_FUEL")
@@ -141,6 +146,7 @@ pub fn note_command() {
         c.set(v);
     });
     PROGRESS_SINCE_TICK.with(|p| p.set(true));
+    spend_fuel();
 }
 
 /// Directly before every `std::process::exit(code)` in the library.
